@@ -1,6 +1,7 @@
 import CfrVerif.Proofs.InvCompile
 import CfrVerif.Proofs.InvScale
 import CfrVerif.Proofs.InvShiftSwap
+import CfrVerif.Proofs.InvChanceName
 /-!
 # C12 — results do not depend on how the game is presented
 
@@ -23,9 +24,10 @@ exchange); this file states the property-level consequences.  Transformations ar
 * exchanging the players and negating payoffs: mirrored strategies, negated utility, exchanged
   regrets and bounds.
 
-Not covered by a theorem: inserting a single-outcome chance node *with a fresh infoset name*
-(it shifts the numbering of later chance infosets; the compiled games are isomorphic, not equal);
-this case is exercised by the metamorphic correspondence run only.
+Inserting a single-outcome chance node *with a fresh infoset name* shifts the numbering of later
+chance infosets: the compiled games are then equal up to that renumbering
+(`Game.ChanceReindexed`), which neither evaluation nor the unsampled solver can observe
+(`c12_named_chance_padding`).
 -/
 set_option linter.unusedSectionVars false
 namespace Cfr
@@ -113,5 +115,28 @@ theorem c12_shift (k : ℝ) (g : Game ℝ) (hg : GameWF g) (σ : Profile ℝ) (h
       = solveVanillaSingle g false p draw T thr := by
   obtain ⟨a, b, c⟩ := getInfo_shift k g hg σ hσ
   exact ⟨a, b, c, solve_full_shift k g hg p draw T thr⟩
+
+/-- single-outcome chance nodes inserted WITH a (fresh) infoset name: same acceptance and errors;
+on success the games are equal up to a renumbering of the chance infosets, hence the same
+evaluation and the same results of the unsampled solver -/
+theorem c12_named_chance_padding [Transc α] (fresh : Nat → Bool) (r r' : Raw α)
+    (hp : PaddedNamed fresh r r') (hav : r.AvoidsChanceName fresh) (hs : Raw.Shape r)
+    (g g' : Game α) (hg : fromRoot r = .ok g) (hg' : fromRoot r' = .ok g') (σ : Bool → Strat α)
+    (p : RegretParams α) (draw : DrawFn α) (T : Nat) (thr : Option (Ext α)) :
+    (getInfo g σ).util = (getInfo g' σ).util ∧ (getInfo g σ).regretOne = (getInfo g' σ).regretOne ∧
+    (getInfo g σ).regretTwo = (getInfo g' σ).regretTwo ∧
+    solveVanillaSingle g false p draw T thr = solveVanillaSingle g' false p draw T thr := by
+  have h := named_chance_padding_transparent fresh r r' hp hav hs
+  rw [hg, hg'] at h
+  have hn : NodeOK g g.root := (compile_ok_wf r hs g hg).nodes
+  obtain ⟨a, b, c⟩ := getInfo_chanceReindexed g g' h.1 hn σ
+  exact ⟨a, b, c, solve_full_chanceReindexed g g' h.1 hn p draw T thr⟩
+
+/-- acceptance is unchanged by named padding -/
+theorem c12_named_chance_padding_acceptance (fresh : Nat → Bool) (r r' : Raw α)
+    (hp : PaddedNamed fresh r r') (hav : r.AvoidsChanceName fresh) (hs : Raw.Shape r)
+    (e : GameError) : fromRoot r = .error e ↔ fromRoot r' = .error e := by
+  have h := named_chance_padding_transparent fresh r r' hp hav hs
+  cases h1 : fromRoot r <;> cases h2 : fromRoot r' <;> simp_all
 
 end Cfr
